@@ -212,3 +212,21 @@ pub struct Cfg {
     /// if set: replay only this request line
     pub replay: Option<String>,
 }
+
+/// `<bin> <property> <quick|thorough> <seed> <outdir> [replay-request-line]` (every engine binary has this command line)
+pub fn cfg_from_args() -> (String, Cfg) {
+    let args: Vec<String> = std::env::args().collect();
+    if args.len() < 5 {
+        eprintln!("usage: {} <property> <quick|thorough> <seed> <outdir> [replay-request-line]", args[0]);
+        std::process::exit(2);
+    }
+    (
+        args[1].clone(),
+        Cfg {
+            thorough: args[2] == "thorough",
+            seed: args[3].parse().unwrap_or(1),
+            outdir: args[4].clone(),
+            replay: args.get(5).cloned(),
+        },
+    )
+}
